@@ -1,0 +1,24 @@
+//go:build verif
+
+// Contracts for the verification machinery in /verif (comment-only; no declarations).
+// C04: a failed TCP dial closes the raw connection and releases the connection scope.
+
+package tcp
+
+//@ func newTracingConn
+//@ prop C04
+//@ trusted
+//@ ensures result1 == nil ==> result0 != nil && ghost.under(result0) == c
+//@ ensures forall x int :: old(ghost.closed(x)) ==> ghost.closed(x)
+//@ noframe
+
+//@ func (t *TcpTransport) dialWithScope
+//@ prop C04
+//@ ensures result1 != nil && called(maDial, 0) && ret(maDial, 0, 1) == nil ==> ghost.closed(ret(maDial, 0, 0))
+//@ ensures result1 == nil ==> called(Upgrade, 0) && ret(Upgrade, 0, 1) == nil && arg(Upgrade, 0, 6) == connScope && arg(Upgrade, 0, 5) == p
+//@ noframe
+
+//@ func (t *TcpTransport) DialWithUpdates
+//@ prop C04
+//@ ensures result1 != nil && called(OpenConnection, 0) && ret(OpenConnection, 0, 1) == nil ==> ghost.done(ret(OpenConnection, 0, 0))
+//@ noframe
